@@ -13,7 +13,7 @@ from props import base
 from props.c09 import evidence, chosen, has_tie, tie_explained
 from shexer import consts as C
 
-PROPS_MODULES = ["ShexerModel.Props.C15"]
+PROPS_MODULES = ["ShexerModel.Props.C15", "ShexerModel.Props.GenStrUnprefix"]
 DEPS = []
 replay = base.replay
 
@@ -228,6 +228,8 @@ def run(ctx):
                     viol.append({"what": "disable_endpoint_cache changes the result: %s" % why, "cache_on": res[False][1][:1200], "cache_off": res[True][1][:1200], **rec})
             if res[False][2] > res[True][2]:
                 viol.append({"what": "caching issues more queries (%d) than no caching (%d)" % (res[False][2], res[True][2]), **rec})
+    # rows of the endpoint / of an rdflib graph get their corners from these helpers (regenerated, Props/GenStrUnprefix)
+    base.fragment_s_tie(ctx, dis, stats, ['add_corners', 'add_corners_if_needed', 'add_corners_if_it_is_an_uri'])
     return base.std_result(ctx, cases, viol, dis, base.known_lines(kf, hit), stats, stats["saved_by_cache"], [],
                            "graphs with IRI nodes, plain-string and integer literals x {target classes, all classes, shape maps (FOCUS patterns, node "
                            "selectors)} x cache on / off x inverse_paths x instances_cap, served by an in-process SPARQL evaluator (rdflib) substituted for "
